@@ -7,16 +7,34 @@ TYPES = ["RANDOM", "ACTOR_JOIN", "ACTOR_SLEEP", "ACTOR_CREATE", "ACTOR_EXIT", "T
          "SEM_ASYNC_LOCK", "SEM_UNLOCK", "SEM_WAIT", "SEM_LOCK_NOMC", "CONDVAR_ASYNC_LOCK", "CONDVAR_BROADCAST", "CONDVAR_SIGNAL", "CONDVAR_WAIT", "CONDVAR_NOMC"]
 SKIP = {"TESTANY", "WAITANY", "MUTEX_LOCK_NOMC", "SEM_LOCK_NOMC", "CONDVAR_NOMC"}  # wrappers are handled by P_W; NOMC types are never evaluated by the checker
 META = {
-    "level_text": "Bounded symbolic execution of the real Transition::dispatch_depends (look-up table + evaluation rules) on two transition objects of concrete classes "
-                  "whose fields (actor ids 0..3 or unknown, object ids 0..3, tags, flags) are symbolic: symmetry of the dependency relation, and dependence of same-actor "
-                  "transitions. The commutation half of the property (independent transitions commute on the kernel state) is not decided here.",
-    "bounds": "every unordered pair of the 24 transition types the checker evaluates (quick: all same-type pairs plus the pairs inside the barrier, communication and semaphore families), actor ids 0..3 (sender/"
-              "receiver/owner possibly unknown), mailbox/communication/mutex/semaphore/barrier/condvar ids 0..3, tags and capacities any int; TESTANY/WAITANY wrapping one "
-              "level (thorough: around the communication types); unwind 4",
-    "outside": "commutation of the real kernel operations for pairs declared independent, co-enabledness, ObjectAccess transitions, states explored by the checker",
-    "stubs": ["xbt logging -> silent", "abort() (xbt_die on NOMC/unwrapped pairs) = path outside the relation (assume false)", "std::string = 'nostring' model"],
-    "assumptions": ["transition objects are built field by field (constructors need a channel): a wrapper is issued by the same actor as its inner transition"],
-    "functions_filter": r"Transition",
+    "level_text": "Bounded symbolic execution of the real code, two parts. (1) symmetry: Transition::dispatch_depends (look-up table + evaluation rules) on two transition "
+                  "objects of concrete classes whose fields (actor ids, object ids, tags, flags) are symbolic: depends(a,b) == depends(b,a), same-actor transitions "
+                  "dependent. (2) commutation for the synchronisation simcalls: a kernel state is built with the real kernel calls, two actors have a pending simcall "
+                  "each; the real observers say whether each is enabled and encode them, the real deserialize_transition decodes them with symbolic object "
+                  "identifiers, the real dispatch_depends decides; whenever both are enabled and declared independent the real kernel operations of the two simcalls "
+                  "(MutexImpl, SemaphoreImpl, ConditionVariableImpl, BarrierImpl on their MC path) are run in both orders on two copies of the state: neither "
+                  "disables the other and the two final kernel states are equal (owners, queues in order, semaphore value, acquisition statuses, simcall results, "
+                  "actors woken).",
+    "bounds": "symmetry: every unordered pair of the 24 transition types the checker evaluates (quick: same-type pairs plus the pairs inside the barrier, communication "
+              "and semaphore families), actor ids 0..3 (sender/receiver/owner possibly unknown), object ids 0..3, tags and capacities any int, TESTANY/WAITANY wrapping "
+              "one level, unwind 4. commutation: 13 synchronisation simcall kinds (mutex async_lock/trylock/unlock/wait, semaphore async_lock/unlock/wait, condvar "
+              "async_lock/wait/signal/broadcast, barrier async_lock/wait), every unordered pair (quick: pairs inside the mutex+condvar, semaphore and barrier "
+              "families, both on the same objects, shapes where both are enabled); 2 mutexes, 1 condition variable, 1 semaphore (capacity 1..2), 1 barrier (1..2 "
+              "actors); a third actor may own the mutex or wait on the condition variable, a fourth may wait while the third owns (thorough); condition waits "
+              "untimed, timed, or signalled beforehand; either preparation order (thorough); mutex / condvar / semaphore / barrier identifiers any unsigned "
+              "(kinds are numbered separately: collisions across kinds included), the two mutexes distinct; unwind 8",
+    "outside": "commutation of communication, actor (join/create/exit), random, test/any and object-access transitions (they need the network model and mailboxes), "
+               "states actually explored by the checker on whole programs, recursive mutexes, more than two pending transitions at once; a condition variable waited "
+               "for with two different mutexes at once (undefined for POSIX / C++ condition variables: the checker declares two such CONDVAR_ASYNC_LOCK independent "
+               "although they fix the wake-up order -- see DESIGN.md section 9)",
+    "stubs": ["xbt logging -> silent", "abort() (xbt_die on NOMC/unwrapped pairs) = path outside the relation (assume false) in the symmetry part, = violation in the "
+              "commutation part", "std::string = 'nostring' model", "mc::Channel::pack / receive -> byte queue of the harness", "MC_is_active -> 1",
+              "ActorImpl::simcall_answer -> counts who is woken", "__dynamic_cast = cxxrt model"],
+    "assumptions": ["symmetry part: transition objects are built field by field (constructors need a channel); a wrapper is issued by the same actor as its inner transition",
+                    "commutation part: the state is built and run with fixed object identifiers, the symbolic identifiers are in place while the two pending simcalls are "
+                    "encoded (the kernel only uses identifiers to name acquisitions)",
+                    "all the actors waiting on a condition variable use the same mutex"],
+    "functions_filter": r"Transition|Observer|MutexImpl|SemaphoreImpl|ConditionVariable|Barrier|deserialize",
 }
 FAMILIES = [("RANDOM", "ACTOR_JOIN", "ACTOR_SLEEP", "ACTOR_CREATE", "ACTOR_EXIT"), ("BARRIER_ASYNC_LOCK", "BARRIER_WAIT"),
             ("COMM_ASYNC_RECV", "COMM_ASYNC_SEND", "COMM_IPROBE", "COMM_TEST", "COMM_WAIT"),
@@ -43,3 +61,111 @@ def queries(tier):
         qs.append(Query(f"sym_{wn}[{inner}]_{wn}[{inner}]", "C39/symmetry.cpp", "harness_symmetry", dict(P_T1=TYPES.index(inner), P_W1=w, P_T2=TYPES.index(inner), P_W2=w),
                         SRC, unwind=4, cap_s=300, prelude=["rbtree", "nostring"], no_pointer_overflow=True))
     return qs
+
+
+# ---- commutation half: real kernel operations of two pending simcalls, in both orders, when the real checker declares them independent
+CSRC = ["src/kernel/actor/SynchroObserver.cpp", "src/kernel/actor/SimcallObserver.cpp", "src/mc/transition/Transition.cpp", "src/mc/transition/TransitionSynchro.cpp",
+        "src/mc/transition/TransitionActor.cpp", "src/mc/transition/TransitionRandom.cpp", "src/mc/transition/TransitionComm.cpp", "src/mc/transition/TransitionAny.cpp",
+        "src/kernel/activity/MutexImpl.cpp", "src/kernel/activity/SemaphoreImpl.cpp", "src/kernel/activity/BarrierImpl.cpp", "src/kernel/activity/ConditionVariableImpl.cpp",
+        "src/kernel/activity/ActivityImpl.cpp", "src/mc/api/BasicTypes.cpp"]
+KINDS = ["MUTEX_ASYNC_LOCK", "MUTEX_TRYLOCK", "MUTEX_UNLOCK", "MUTEX_WAIT", "SEM_ASYNC_LOCK", "SEM_UNLOCK", "SEM_WAIT", "CONDVAR_ASYNC_LOCK", "CONDVAR_WAIT", "CONDVAR_SIGNAL",
+         "CONDVAR_BROADCAST", "BARRIER_ASYNC_LOCK", "BARRIER_WAIT"]
+USES_MUTEX = {0, 1, 2, 3, 7, 8}
+MUTEX_FAMILY = [0, 1, 2, 3, 7, 8, 9, 10]
+
+
+def feasible(ka, kb, oa, ob, pre, order):
+    """can the pre-state be built? (own() needs a free mutex)"""
+    owner = {0: "C" if pre in (1, 3) else None, 1: None}
+    seq = [("B", kb, ob), ("A", ka, oa)] if order else [("A", ka, oa), ("B", kb, ob)]
+    if ka in (7, 8) and kb in (7, 8) and oa != ob:
+        return False  # one condition variable waited for with two different mutexes at once: undefined for POSIX and C++ condition variables, not a shape a valid program reaches
+    for who, k, o in seq:
+        if k in (2, 7):
+            if owner[o] is not None:
+                return False
+            owner[o] = who
+        elif k == 8:
+            if owner[o] is not None:
+                return False
+        elif k == 3 and owner[o] is None:
+            owner[o] = who
+    return True
+
+
+def both_enabled(ka, kb, oa, ob, pre, order, d):
+    """estimate (quick tier only keeps shapes where the commutation part is exercised; the harness asks the real observers)"""
+    owner = {0: "C" if pre in (1, 3) else None, 1: None}
+    cvq = ["C"] if pre == 2 else (["D"] if pre == 3 else [])
+    sem_left, bar_n = d.get("P_CAP", 1), 0
+    granted = {}
+    seq = [("B", kb, ob), ("A", ka, oa)] if order else [("A", ka, oa), ("B", kb, ob)]
+    for who, k, o in seq:
+        if k in (2, 7):
+            owner[o] = who
+        elif k == 8:
+            cvq.append(who)
+        elif k == 3:
+            if owner[o] is None:
+                owner[o] = who
+            granted[who] = owner[o] == who
+        elif k == 6:
+            granted[who] = sem_left > 0
+            sem_left -= 1 if sem_left > 0 else 0
+        elif k == 12:
+            bar_n += 1
+    for who, k, o in seq:
+        if k == 12:
+            granted[who] = bar_n >= d.get("P_BAR", 2)
+        if k == 8:
+            granted[who] = bool(d.get("P_TMO")) or (bool(d.get("P_SIG")) and cvq and cvq[0] == who)
+    return all(granted.get(w, True) for w in ("A", "B"))
+
+
+def commute_queries(tier):
+    qs = []
+    seen = set()
+    for ka in range(len(KINDS)):
+        for kb in range(ka, len(KINDS)):
+            fam_pair = ka in MUTEX_FAMILY and kb in MUTEX_FAMILY
+            objs = [(0, 0), (0, 1)] if (ka in USES_MUTEX and kb in USES_MUTEX) else [(0, 0)]
+            for oa, ob in objs:
+                for pre in (0, 1, 2, 3):
+                    for order in (0, 1):
+                        for var in range(3):
+                            d = dict(P_KA=ka, P_KB=kb, P_OA=oa, P_OB=ob, P_PRE=pre, P_ORD=order)
+                            # variants: how waits become enabled
+                            if var == 1:
+                                if 8 not in (ka, kb):
+                                    continue
+                                d["P_TMO"] = 1
+                            elif var == 2:
+                                if 8 not in (ka, kb) and pre not in (2, 3):  # a signal nobody waits for is lost
+                                    continue
+                                d["P_SIG"] = 1
+                            if 6 in (ka, kb) or 4 in (ka, kb):
+                                d["P_CAP"] = 2 if (ka == kb == 6) else 1
+                            if 12 in (ka, kb):
+                                d["P_BAR"] = 2 if (ka == kb == 12) else 1
+                            if not feasible(ka, kb, oa, ob, pre, order):
+                                continue
+                            if tier == "quick":
+                                if order or pre == 3 or (pre == 2 and (not ({ka, kb} & {9, 10}) or d.get("P_SIG"))) or not (fam_pair or (ka in (4, 5, 6) and kb in (4, 5, 6)) or (ka >= 11 and kb >= 11)):
+                                    continue
+                                if (oa, ob) != (0, 0) or (pre == 1 and not ({ka, kb} & {0, 1, 3})) or not both_enabled(ka, kb, oa, ob, pre, order, d):
+                                    continue
+                            name = f"commute_{KINDS[ka]}_{KINDS[kb]}_o{oa}{ob}_pre{pre}" + ("_ord" if order else "") + ("_tmo" if d.get("P_TMO") else "") + \
+                                   ("_sig" if d.get("P_SIG") else "")
+                            if name in seen:
+                                continue
+                            seen.add(name)
+                            qs.append(Query(name, "C39/commute.cpp", "harness_commute", d, CSRC, unwind=8, cap_s=600, mem_gb=12, memcap=16,
+                                            prelude=["rbtree", "nostring"], no_pointer_overflow=True))
+    return qs
+
+
+_sym_queries = queries
+
+
+def queries(tier):  # noqa: F811
+    return _sym_queries(tier) + commute_queries(tier)
